@@ -138,7 +138,7 @@ PROPS.update({
         bounds="generated family G (tools/gen_derive.py: ~40 definitions quick, ~53 thorough; shapes unit/tuple/named x 0..4 fields x {none, skip, compact, encoded_as} x field types x enums with index attribute / discriminant / position / skip incl. all-variants-skipped, repr(transparent), single-field forwarders) plus hand-written generic / CompactAs / nested members; every definition decided over ALL its values (encode, round trip) and ALL byte strings up to max length + 1 (decode; the index byte ranges over all 256 values)",
         outside="definitions outside G (nesting depth > 2, lifetimes, custom bounds attributes, > 5 variants); the programs axis is enumeration by construction (a macro runs on program text)",
         explanation="each definition and its reference encoder/decoder are emitted from ONE abstract description, so the oracle does not go through the macro: real derived encode == layout, decode inverts it and fills skipped fields with Default, unknown index byte rejected, skipped variants encode to nothing and terminate (unwinding assertions)."),
-    "C08": dict(runs=std_runs(8, heavy=True) + [dict(features=["c08"], cfg="std", jobs=8, filters={"quick": ["c08q_ioreader"], "thorough": ["c08q_ioreader", "c08t_ioreader", "c08q_in_tup3", "c08q_in_vec_opt_2", "c08q_bytes"]})],
+    "C08": dict(runs=std_runs(8, heavy=True) + [dict(features=["c08"], cfg="std", jobs=8, harness_timeout=2400, timeout=7200, filters={"quick": ["c08q_ioreader"], "thorough": ["c08q_ioreader", "c08t_ioreader", "c08q_in_tup3", "c08q_in_vec_opt_2", "c08q_bytes"]})],
         bounds="ALL byte strings of symbolic length <= size+1 for every fixed-shape type; containers with <= 3 elements; input stacks: &[u8], unknown-length, CountedInput / depth-limit(u32::MAX) / mem-limit(usize::MAX) in every order the API allows up to depth 3, decode_from_bytes incl. zero-copy Bytes, IoReader over a reader delivering symbolic-size short chunks (std configuration)",
         outside="I/O errors other than EOF from a reader",
         explanation="the same symbolic bytes decoded through every input stack: identical Ok/Err, equal values, equal bytes consumed."),
@@ -209,7 +209,7 @@ for _k in ("C08", "C11", "C12", "C14", "C18", "C19"):
     PROPS[_k]["pre"] = GEN_BOTH
 PROPS["C11"]["runs"].append(dict(features=["c11"], cfg="nostd", stubbing=True, filters={"quick": ["c11s_"], "thorough": ["c11s_"]}))
 for _k in ("C14", "C18"):
-    PROPS[_k]["runs"].append(dict(features=[_k.lower()], cfg="std", jobs=8, filters={"quick": [_k.lower() + "q_ioreader"], "thorough": [_k.lower() + "q_ioreader", _k.lower() + "t_ioreader"]}))
+    PROPS[_k]["runs"].append(dict(features=[_k.lower()], cfg="std", jobs=8, harness_timeout=2400, timeout=7200, filters={"quick": [_k.lower() + "q_ioreader"], "thorough": [_k.lower() + "q_ioreader", _k.lower() + "t_ioreader"]}))
 
 # additions after seeded-change rounds 3 and 4 (appended to the bounds of the properties they extend)
 _MORE_BOUNDS = {
